@@ -18,9 +18,9 @@ func init() {
 		Level: "exploration",
 		Cases: func(t string) int {
 			if t == "thorough" {
-				return 10000
+				return 16000
 			}
-			return 800
+			return 1600
 		},
 		Batch: func(t string) int { return 40 },
 		Floors: []string{"files_checked", "rule_page_stats.min", "rule_page_stats.max", "rule_chunk_stats.min", "rule_chunk_stats.null_count", "rule_column_index.null_pages", "rule_column_index.null_counts", "rule_column_index.min", "rule_column_index.max",
